@@ -70,7 +70,7 @@ std::string contentOf(int c, int stamp) {
 int versionOf(int c) { return c == 0 ? 1 : c == 1 ? 2 : 0; }  // 0 = not a valid drop-in
 
 struct EnvOp {
-  char kind;  // W create/overwrite in one go, T truncate-then-write (two steps), A atomic replace via dot-file + rename, D delete, M rename a->b, R rmdir+mkdir
+  char kind;  // W create/overwrite in one go, T truncate-then-write (two steps), S rewrite the same bytes in two steps, A atomic replace via dot-file + rename, D delete, M rename a->b, R rmdir+mkdir
   std::string file;
   int content;
   std::string str() const {
@@ -79,6 +79,7 @@ struct EnvOp {
       case 'T': return "truncate+write(" + file + "," + kContentName[content] + ")";
       case 'A': return "atomic-replace(" + file + "," + kContentName[content] + ")";
       case 'D': return "delete(" + file + ")";
+      case 'S': return "rewrite-same-bytes-in-two-steps(" + file + ")";
       case 'M': return "rename(a->b)";
       case 'R': return "rmdir+mkdir(dir)";
     }
@@ -128,6 +129,7 @@ struct C14 : vr::Driver {
       for (int c : {0, 1, 2}) alphabet.push_back({'A', f, c});
     alphabet.push_back({'D', "a", 0});
     alphabet.push_back({'D', "b", 0});
+    alphabet.push_back({'S', "a", 0});  // truncate and write the file's CURRENT bytes again, in two steps (no-op if the file is absent)
     alphabet.push_back({'M', "a", 0});
     alphabet.push_back({'R', "", 0});
     // length-1 sequences from an empty directory and from a directory holding a=valid1
@@ -240,6 +242,21 @@ struct C14 : vr::Driver {
                 ::close(fd);
               }
               fsModel[o.file] = {o.content, st};
+              break;
+            }
+            case 'S': {
+              // same bytes, same stamp: only the intermediate states differ from "nothing happened"
+              auto it = fsModel.find(o.file);
+              if (it == fsModel.end()) break;
+              std::string d = contentOf(it->second.first, it->second.second);
+              int fd = ::open(p.c_str(), O_WRONLY | O_TRUNC, 0644);
+              vs::yield("env between truncate and write");
+              if (fd >= 0) {
+                (void)!::write(fd, d.data(), d.size() / 2);
+                vs::yield("env mid-write");
+                (void)!::write(fd, d.data() + d.size() / 2, d.size() - d.size() / 2);
+                ::close(fd);
+              }
               break;
             }
             case 'A': {
